@@ -279,11 +279,43 @@ def compare(interp, op, a, b):
     return r
 
 
+def static_type(interp, t, depth=0):
+    """Type tag of a term when it follows from how the term was made."""
+    if not isinstance(t, T) or depth > 6:
+        return 'str' if isinstance(t, K) and isinstance(t.v, str) else None
+    tag = interp.types.get(t) or interp.path_types.get(t)
+    if tag:
+        return tag
+    if t.op in ('fstr', 'fmtval', 'format'):
+        return 'str'
+    if t.op in ('item', 'sub', 'elem') and isinstance(t.args[0], T) and \
+            t.args[0].op == 'mcall' and t.args[0].args[1] in (
+                'split', 'rsplit', 'splitlines', 'partition', 'rpartition'):
+        return static_type(interp, t.args[0].args[0], depth + 1)
+    if t.op == 'mcall' and t.args[1] in STR_RET:
+        base = static_type(interp, t.args[0], depth + 1)
+        if base in ('str', 'bytes'):
+            if t.args[1] == 'decode':
+                return 'str'
+            return base
+    if t.op == 'slice':
+        return static_type(interp, t.args[0], depth + 1)
+    return None
+
+
 def _identity(a, b, interp=None):
     """True/False/None for ``a is b``."""
     if isinstance(a, ExtRef) and isinstance(b, K) or \
             isinstance(b, ExtRef) and isinstance(a, K):
         return False
+    # the result of an operator, of string formatting, of a comparison or
+    # of a container display is never None
+    for x, y in ((a, b), (b, a)):
+        if isinstance(y, K) and y.v is None and isinstance(x, T) and \
+                x.op in ('binop', 'fstr', 'fmtval', 'format', 'cmp', 'not',
+                         'bytes', 'int', 'list', 'dict', 'tuple', 'set',
+                         'isinstance', 'rxmatch', 'len'):
+            return False
     # type(x) of an unmodelled object is a class: never a constant
     if isinstance(a, T) and a.op == 'type' and isinstance(b, K) or \
             isinstance(b, T) and b.op == 'type' and isinstance(a, K):
@@ -312,6 +344,15 @@ def _identity(a, b, interp=None):
             return False
         if isinstance(a, heap) and isinstance(b, heap):
             return a is b
+        if interp is not None:
+            # a value known to be a str / bytes / number is not a heap
+            # object made by the code (a sentinel, an instance, a list)
+            for x, y in ((a, b), (b, a)):
+                if isinstance(x, heap) and isinstance(y, T) and \
+                        static_type(interp, y) in (
+                            'str', 'bytes', 'int', 'float', 'bool',
+                            'datetime', 'timedelta'):
+                    return False
         return None
     if isinstance(a, ExtRef) and isinstance(b, ExtRef):
         return a == b
